@@ -1,0 +1,53 @@
+# This file is part of the bumpver project
+# https://github.com/mbarkhau/bumpver
+#
+# SPDX-License-Identifier: MIT
+"""Optional execution tracing (off unless BUMPVER_VERIF_TRACE is set).
+
+Appends one JSON line per event to the file named by the environment
+variable BUMPVER_VERIF_TRACE. Used to validate recorded executions
+against an external specification. No effect when the variable is unset.
+"""
+import os
+import json
+import typing as typ
+
+_SEQ = 0
+
+
+def enabled() -> bool:
+    return bool(os.environ.get('BUMPVER_VERIF_TRACE'))
+
+
+def _jsonable(val: typ.Any) -> typ.Any:
+    if val is None or isinstance(val, (bool, int, str)):
+        return val
+    if isinstance(val, bytes):
+        return val.decode("utf-8", "replace")
+    if isinstance(val, dict):
+        return {str(k): _jsonable(v) for k, v in val.items()}
+    if isinstance(val, (list, tuple, set, frozenset)):
+        items = list(val)
+        if isinstance(val, (set, frozenset)):
+            items = sorted(items, key=str)
+        return [_jsonable(v) for v in items]
+    if hasattr(val, '_asdict'):
+        return _jsonable(val._asdict())
+    if hasattr(val, 'isoformat'):
+        return val.isoformat()
+    if hasattr(val, 'value'):
+        return _jsonable(val.value)
+    return str(val)
+
+
+def emit(event: str, **fields: typ.Any) -> None:
+    # pylint:disable=global-statement; per-process sequence number
+    global _SEQ
+    path = os.environ.get('BUMPVER_VERIF_TRACE')
+    if not path:
+        return
+    _SEQ += 1
+    rec = {'pid': os.getpid(), 'seq': _SEQ, 'ev': event}
+    rec.update(_jsonable(fields))
+    with open(path, mode="a", encoding="utf-8") as fobj:
+        fobj.write(json.dumps(rec, sort_keys=True) + "\n")
